@@ -192,6 +192,9 @@ def main(tier):
         regs = ["RxV = 1;", "RyyV = 2;", "mem_store_u8(RtV, 3);", "ReV = 4;"][:n]
         items.append(dict(name=f"stmtexprreg{n}", text=f"{{ RddV = ({{ {' '.join(regs)} RsV; }}); }}", vkey="stmtexpr"))
     fam.replay_witnesses()
+    for name, text in gen.chained_assignments(random.Random(run.seed + 2), False):
+        if name.startswith(("chain4", "chainregs")) or rng.random() < 0.1:
+            items.append(dict(name=name, text=text, exports=gen.cast_exports(name), vkey="chain"))
     progs, kept = fam.compile(items)
     conserved = 0
     effects_created = 0
